@@ -128,6 +128,12 @@ async def make_env(kind: str, users: dict[str, str] | None = None,
                    **kw: Any) -> Env:
     if kind == 'dict':
         return await make_dict(users, **kw)
+    if kind == 'maildir-colon':
+        # a deployment with another info separator in file names (--colon),
+        # as needed on file systems that cannot have ':' in names
+        if users is None:
+            users = {'testuser': 'testpass'}
+        return await make_maildir(users, layout='++', colon='!', **kw)
     if kind.startswith('maildir'):
         layout = 'fs' if kind.endswith('fs') else '++'
         if users is None:
